@@ -58,6 +58,12 @@ type N struct {
 	Par   bool            `json:"par"`  // the function literal takes a parameter a
 	Dpos  int             `json:"dpos"` // the default clause stands before case dpos+1
 	DFall bool            `json:"dfall"`
+	H     string          `json:"h"`     // variable holding a function
+	Tys   []string        `json:"tys"`   // types that have a clause in a type switch
+	Multi []string        `json:"multi"` // types that share one clause
+	Bind  bool            `json:"bind"`  // switch v := e.(type)
+	Rot   int             `json:"rot"`   // rotation of the clauses (the default clause among them)
+	Ty    string          `json:"ty"`
 }
 
 type Case struct {
@@ -180,6 +186,22 @@ var arr = [2]int{5, 6}
 
 func helper() interface{} { return recover() }
 
+func vsum(xs ...int) int {
+	s := len(xs) * 100
+	for _, x := range xs {
+		s += x
+	}
+	return s
+}
+
+func mkctr(start int) func() int {
+	n := start
+	return func() int {
+		n++
+		return n
+	}
+}
+
 func show(x interface{}) {
 	if n, ok := x.(int); ok {
 		fmt.Println("rec", n)
@@ -269,6 +291,18 @@ func Expr(e *N) string {
 			as = append(as, Expr(a))
 		}
 		return e.cloName() + "(" + strings.Join(as, ", ") + ")"
+	case "vcall":
+		var as []string
+		for _, a := range e.Args {
+			as = append(as, Expr(a))
+		}
+		return "vsum(" + strings.Join(as, ", ") + ")"
+	case "vspread":
+		return "vsum(" + e.S + "...)"
+	case "fvcall":
+		return e.H + "(" + Expr(e.Args[0]) + ")"
+	case "chlen":
+		return "len(" + e.S + ")"
 	case "cvar":
 		return e.X()
 	case "ufld":
@@ -300,6 +334,67 @@ func Expr(e *N) string {
 		return "!(" + Expr(e.X_()) + ")"
 	}
 	return "/*?" + e.K + "*/"
+}
+
+func ifaceVal(s *N) string {
+	switch s.Form {
+	case "int":
+		return Expr(s.E)
+	case "str":
+		return StrExpr(s.Src)
+	case "T":
+		return s.From
+	}
+	return "nil"
+}
+
+// tysw renders a type switch: one clause per listed type (int and string share one when
+// s.Multi is set), the default clause among them, rotated by s.Rot.
+func (r *rend) tysw(s *N) {
+	multi := len(s.Multi) > 0
+	type clause struct{ head, body string }
+	var cl []clause
+	val := func(ty, conv, bound string) string {
+		if s.Bind {
+			return bound
+		}
+		return conv
+	}
+	for _, ty := range s.Tys {
+		switch ty {
+		case "int":
+			if multi {
+				cl = append(cl, clause{"case int, string:", fmt.Sprintf("fmt.Println(\"t\", %d, \"multi\")", s.ID)})
+			} else {
+				cl = append(cl, clause{"case int:", fmt.Sprintf("fmt.Println(\"t\", %d, \"int\", %s)", s.ID, val(ty, s.S+".(int)+1", "tv+1"))})
+			}
+		case "str":
+			if !multi {
+				cl = append(cl, clause{"case string:", fmt.Sprintf("fmt.Println(\"t\", %d, \"string\", %s)", s.ID, val(ty, "len("+s.S+".(string))", "len(tv)"))})
+			}
+		case "T":
+			cl = append(cl, clause{"case T:", fmt.Sprintf("fmt.Println(\"t\", %d, \"T\", %s)", s.ID, val(ty, s.S+".(T).a", "tv.a"))})
+		case "nil":
+			cl = append(cl, clause{"case nil:", fmt.Sprintf("fmt.Println(\"t\", %d, \"nil\")", s.ID)})
+		}
+	}
+	dflt := fmt.Sprintf("fmt.Println(\"t\", %d, \"other\")", s.ID)
+	if s.Bind {
+		dflt = "_ = tv\n" + strings.Repeat("\t", r.ind+1) + dflt
+	}
+	cl = append(cl, clause{"default:", dflt})
+	k := s.Rot % len(cl)
+	cl = append(cl[k:], cl[:k]...)
+	if s.Bind {
+		r.line("switch tv := %s.(type) {", s.S)
+	} else {
+		r.line("switch %s.(type) {", s.S)
+	}
+	for _, c := range cl {
+		r.line("%s", c.head)
+		r.line("\t%s", c.body)
+	}
+	r.line("}")
 }
 
 // StrExpr renders a string expression.
@@ -658,6 +753,70 @@ func (r *rend) stmt(s *N) {
 		r.line("} else {")
 		r.line("\tfmt.Println(\"norec\")")
 		r.line("}")
+	case "asgidx":
+		if s.Form == "xfirst" {
+			r.line("%s, arr[%s] = %s, %s", s.X(), idx(&N{K: "var", RawX: s.RawX}), Expr(s.A), Expr(s.B))
+		} else {
+			r.line("arr[%s], %s = %s, %s", idx(&N{K: "var", RawX: s.RawX}), s.X(), Expr(s.B), Expr(s.A))
+		}
+	case "slswap":
+		r.line("%s[%d], %s[%d] = %s[%d], %s[%d]", s.S, s.Lo, s.S, s.Hi, s.S, s.Hi, s.S, s.Lo)
+	case "mkfv":
+		if s.Form == "pick" {
+			r.line("%s := pick()", s.S)
+		} else {
+			r.line("%s := g", s.S)
+		}
+		r.line("_ = %s", s.S)
+	case "mkgen":
+		r.line("%s := mkctr(%s)", s.cloName(), Expr(s.E))
+		r.line("_ = %s", s.cloName())
+	case "imk":
+		r.line("var %s interface{} = %s", s.S, ifaceVal(s))
+		r.line("_ = %s", s.S)
+	case "iasg":
+		r.line("%s = %s", s.S, ifaceVal(s))
+	case "tysw":
+		r.tysw(s)
+	case "tyas":
+		ty := map[string]string{"int": "int", "str": "string", "T": "T"}[s.Ty]
+		val := map[string]string{"int": "av", "str": "len(av)", "T": "av.b"}[s.Ty]
+		r.line("if av, ok := %s.(%s); ok {", s.S, ty)
+		r.line("\tfmt.Println(\"a\", %d, %s)", s.ID, val)
+		r.line("} else {")
+		r.line("\tfmt.Println(\"a\", %d, \"no\")", s.ID)
+		r.line("}")
+	case "tyas1":
+		r.line("%s = %s.(int)", s.X(), s.S)
+	case "mkch":
+		r.line("%s := make(chan int, 2)", s.S)
+		r.line("_ = %s", s.S)
+	case "chsend":
+		r.line("%s <- %s", s.S, Expr(s.E))
+	case "chtrysend":
+		r.line("select {")
+		r.line("case %s <- %s:", s.S, Expr(s.E))
+		r.line("\tfmt.Println(\"c\", %d, \"sent\")", s.ID)
+		r.line("default:")
+		r.line("\tfmt.Println(\"c\", %d, \"full\")", s.ID)
+		r.line("}")
+	case "chrecv":
+		r.line("if cv, ok := <-%s; true {", s.S)
+		r.line("\tfmt.Println(\"c\", %d, cv, ok)", s.ID)
+		r.line("}")
+	case "chtry":
+		r.line("select {")
+		r.line("case cv := <-%s:", s.S)
+		r.line("\tfmt.Println(\"c\", %d, cv)", s.ID)
+		r.line("default:")
+		r.line("\tfmt.Println(\"c\", %d, \"empty\")", s.ID)
+		r.line("}")
+	case "chclose":
+		r.line("close(%s)", s.S)
+	case "chrange":
+		r.line("for cv := range %s {", s.S)
+		r.line("\tfmt.Println(\"c\", %d, cv)", s.ID)
+		r.line("}")
 	case "cdef":
 		r.line("const %s = %d", s.X(), s.V())
 		r.line("_ = %s", s.X())
@@ -849,6 +1008,8 @@ func (p *Prog) FuncDecls() string {
 	r.block(g.Body)
 	r.ind--
 	r.line("}")
+	r.line("")
+	r.line("func pick() func(int) int { return g }")
 	r.line("")
 	r.line("func two(p int) (r int, q int) {")
 	r.ind++
